@@ -40,3 +40,15 @@ chk("C14",
     "from their specification and validated by the correspondence only; 'a different key never returns the message' is AES behaviour (labelled test).",
     "Lean 4 proof (CBC/PKCS7 inversion by induction) + recorded-oracle differential correspondence",
     "6/C14")
+chk("C15",
+    "Unbounded theorems (Props/C15.lean), for every key, every keyed digest of fixed positive length, every width n >= 2 and every even round "
+    "count (or even n): the FFX round function's expansion loop terminates with exactly the requested number of bits; encrypt maps well-formed "
+    "n-bit strings to well-formed n-bit strings; decrypt(encrypt(x)) = x and encrypt(decrypt(y)) = y, hence injective and onto {0,1}^n; the bit "
+    "PRP refuses wrong key/message bit lengths and otherwise is that bijection; byte Luby-Rackoff is injective and length-preserving for any "
+    "underlying function and refuses wrong lengths, odd message lengths and key lengths not divisible by 3. Tied to fpe.py / prp/*.py by a "
+    "differential run with recorded HMAC digests: every input of width 2..9, random widths to 2100 bits, all round counts, contracts, "
+    "and the direct oracle (exhaustive bijectivity to n = 10 quick / 12 thorough, all 65536 two-byte Luby-Rackoff messages).",
+    "Trusted: Lean kernel + 3 standard axioms; hmac digests are leaves; struct.pack('I') modelled as little-endian (this platform); the default round "
+    "count 10 is even (odd round counts with odd n are outside the theorem and are not used by the repository).",
+    "Lean 4 proof (Feistel inversion by induction over rounds, any round function) + recorded-oracle differential correspondence",
+    "6/C15")
